@@ -302,7 +302,7 @@ Definition c06_ident (c : cfg) (lc : listen_cfg) (tcp : bool) (q : jreq) (learne
   | HHop _ =>
       match c06_host c lc tcp q with
       | Some h => match alookup h learned with
-                  | Some (li', tcp') => jtrans_of c li' tcp'
+                  | Some (li', tcp') => jident_of c li' tcp'
                   | None => None end
       | None => None
       end
@@ -326,14 +326,17 @@ Definition c06_check (br : bytes) (ident : option (bytes * bytes * Z)) (must : b
               match ovs with
               | top :: rest =>
                   if negb (beq (jv_transport top) proto && beq (jv_host top) addr &&
-                           match jv_port top with Some p => Z.eqb p port | None => false end &&
+                           match jv_port top with
+                           | Some p => negb (Z.eqb port 0) && Z.eqb p port
+                           | None => Z.eqb port 0 end &&
                            Nat.eqb (List.length rest) (List.length ivs) &&
                            forallb (fun '(a, b) => beq (jv_host a) (jv_host b) && beq (jv_proto a) (jv_proto b))
                                    (combine rest ivs))%bool then 1%nat
                   else if negb (match j_get (s2b "branch") (jv_params top) with
                                 | Some b => beq b br | None => false end) then 3%nat
                   else
-                    let own_rr := s2b "<sip:" ++ addr ++ ":"%char :: itoa port ++ s2b ";lr>" in
+                    let own_rr := if Z.eqb port 0 then s2b "<sip:" ++ addr ++ s2b ";lr>"
+                                  else s2b "<sip:" ++ addr ++ ":"%char :: itoa port ++ s2b ";lr>" in
                     let want_rr := if (match in_rr with [] => false | _ => true end || must)%bool
                                    then own_rr :: in_rr else in_rr in
                     if (Nat.eqb (List.length out_rr) (List.length want_rr) &&
@@ -497,7 +500,7 @@ Proof.
                      jv_params := [(s2b "branch", br)] |}) by reflexivity.
     rewrite TOP. cbn [jv_transport jv_host jv_port jv_params].
     replace (Z.eqb (t_port t) 0) with false by (symmetry; apply Z.eqb_neq; exact Pn).
-    rewrite !beq_refl, Z.eqb_refl, LE, Nat.eqb_refl, HP. cbn [andb negb].
+    cbv beta iota. rewrite !beq_refl, Z.eqb_refl, LE, Nat.eqb_refl, HP. cbn [andb negb].
     assert (JB : j_get (s2b "branch") [(s2b "branch", br)] = Some br) by reflexivity.
     rewrite JB. cbv beta iota. rewrite beq_refl. cbn [negb].
     rewrite tview_nonnil_iff, has_header_sel. fold (own_rr_text (t_addr t) (t_port t)).
@@ -514,16 +517,17 @@ Qed.
 Definition tr3 (t : stransport) : bytes * bytes * Z := (t_proto t, t_addr t, t_port t).
 
 (* the judge's table (host -> listen entry, TCP?) names, through the configuration, the transport the model
-   has learned for the host; same domain *)
+   has learned for the host; same domain.  (jident_of: an entry with SpecProxy.dial_mark, filed for a host learned
+   over a connection the proxy dialled, names that connection's port-less transport.) *)
 Definition agree_learned (c : cfg) (js : list (bytes * (nat * bool))) (l : learned) : Prop :=
   forall h, match alookup h js, alookup h l with
-            | Some (li', tcp'), Some t => jtrans_of c li' tcp' = Some (tr3 t)
+            | Some (li', tcp'), Some t => jident_of c li' tcp' = Some (tr3 t)
             | None, None => True
             | _, _ => False
             end.
 
 Lemma agree_learn1 c js l h li tcp t :
-  agree_learned c js l -> jtrans_of c li tcp = Some (tr3 t) ->
+  agree_learned c js l -> jident_of c li tcp = Some (tr3 t) ->
   agree_learned c (aset h (li, tcp) js) (learn h t l).
 Proof.
   intros A J k. rewrite learn_lookup. destruct (beq k h) eqn:E.
@@ -537,7 +541,7 @@ Proof.
   - apply beq_neq in E. rewrite alookup_aset_other by exact E. exact (A k).
 Qed.
 
-Lemma agree_fold c li tcp t hosts : jtrans_of c li tcp = Some (tr3 t) -> forall js l, agree_learned c js l ->
+Lemma agree_fold c li tcp t hosts : jident_of c li tcp = Some (tr3 t) -> forall js l, agree_learned c js l ->
   agree_learned c (fold_left (fun l h => aset h (li, tcp) l) hosts js) (fold_left (fun l h => learn h t l) hosts l).
 Proof.
   intros J. induction hosts as [|h r IH]; intros js l A; [exact A|]. cbn [fold_left]. apply IH.
@@ -565,12 +569,12 @@ Lemma j_learn_agree c stj li lc src sport data jin m x :
   opt_all (map j_via (j_flat_via (jm_headers jin))) = Some (map B7.jv_of (C07.flat_view (C07.via_hdrs m))) ->
   agree_learned c (j_learn stj (jin_udp li src sport data) jin) (learned_after src (B13.udp_transport lc) m x).
 Proof.
-  intros A N Rj Rm NB EV. unfold j_learn, learned_after, jin_udp. rewrite Rj, Rm, NB.
+  intros A N Rj Rm NB EV. unfold j_learn, learned_after, jin_udp, ji_dialled. rewrite Rj, Rm, NB.
   cbn [andb negb ji_src ji_li ji_tcp].
   rewrite (hosts_agree _ _ EV), map_map, all_vias_flat.
   change (map (fun x0 : via_param => jv_host (B7.jv_of x0))) with (map v_host).
   apply (agree_fold c li false (B13.udp_transport lc)); [|exact A].
-  unfold jtrans_of. rewrite N. reflexivity.
+  unfold jident_of, jtrans_of. cbn [andb]. rewrite N. reflexivity.
 Qed.
 
 (* learned transports print as readable own entries *)
